@@ -269,6 +269,33 @@ func c20BuildCatalogue() *c20Catalogue {
 	sem(&c.SemCA, ca(func(s *c20CASpec) { s.s2 = c20Evil }).build("xCA.sigN2=evil"))
 	sem(&c.SemCA, ca(func(s *c20CASpec) { s.sb1 = c20EvilBtc }).build("xCA.sigB1=evil"))
 	sem(&c.SemCA, ca(func(s *c20CASpec) { s.sb2 = c20EvilBtc }).build("xCA.sigB2=evil"))
+	// each slot signed by each of the other three honest keys
+	{
+		honest := []struct {
+			n string
+			k *btcec.PrivateKey
+		}{{"node1", c20Node1}, {"node2", c20Node2}, {"btc1", c20Btc1}, {"btc2", c20Btc2}}
+		for slot, sn := range []string{"N1", "N2", "B1", "B2"} {
+			for hi, h := range honest {
+				if hi == slot {
+					continue
+				}
+				slot, h := slot, h
+				sem(&c.SemCA, ca(func(s *c20CASpec) {
+					switch slot {
+					case 0:
+						s.s1 = h.k
+					case 1:
+						s.s2 = h.k
+					case 2:
+						s.sb1 = h.k
+					case 3:
+						s.sb2 = h.k
+					}
+				}).build("xCA.sig"+sn+"=by-"+h.n))
+			}
+		}
+	}
 	// right signers, wrong slots
 	sem(&c.SemCA, ca(func(s *c20CASpec) { s.swapN = true }).build("xCA.sigN1<->sigN2"))
 	sem(&c.SemCA, ca(func(s *c20CASpec) { s.swapB = true }).build("xCA.sigB1<->sigB2"))
